@@ -1,3 +1,7 @@
 #!/bin/sh
-# incremental build from the current /repo tree; prints only errors
-cd /verif/sim && CARGO_NET_OFFLINE=true cargo build --release --offline 2>&1 | grep -E "^error" -A12 | head -${1:-60}
+# incremental build from the current /repo tree; prints only errors; exit 1 on failure
+cd /verif/sim
+out=$(CARGO_NET_OFFLINE=true cargo build --release --offline 2>&1)
+rc=$?
+if [ $rc -ne 0 ]; then echo "$out" | grep -E "^error" -A12 | head -${1:-60}; exit 1; fi
+exit 0
